@@ -147,3 +147,48 @@ Proof.
       destruct (IH H C _ _ (snd o) _ plus replies Hg Hs Hl Hw Hi2 Hop2 Hsz2 Ho' Hrest) as [s Hs0].
       exists s. cbn [concat]. rewrite Hvr, map_app, Hs0, <- Hrp, app_assoc. reflexivity.
 Qed.
+
+(* ------------------------------------------------------------------ the statement on such hosts is refuted too *)
+(* the full statement for hosts whose cookies need not be seekable *)
+Definition C16_full_any_host_stmt : Prop :=
+  forall plan H C pre rest st off plus,
+  good_dir (pre ++ rest) -> seek_recoverable H -> lookups_ok H (pre ++ rest) ->
+  wrap_total (c_wrap C) -> InvSt (pre ++ rest) st ->
+  (c_noopendir C = false -> forall m, In m plan -> hs_open (st_h st (ms_handle m)) = true) ->
+  off_at pre off ->
+  plan_ok spec_size_ok H C (pre ++ rest) st off plus plan ->
+  (length (visible rest) < length plan)%nat ->
+  exists replies,
+    listing H C (pre ++ rest) st off plus plan = map ROk (replies ++ [[]]) /\
+    concat replies = map (mkd H (c_wrap C) plus) (visible rest).
+
+(* witness: a 100-byte name first, cookies above i64::MAX; the second request (32 bytes, enough for
+   "a") has to scan over the first record, which does not fit 32 bytes: getdents64 says EINVAL *)
+Definition f_dir : list hent :=
+  [mk_hent (repeat 120 100) 11 9223372036854775900 8; mk_hent [97] 12 9223372036854775901 8;
+   mk_hent [98] 13 9223372036854775902 8].
+Definition f_host : host := mk_host (fun _ => 0%nat) (fun c => if c =? 0 then 0 else EINVAL) (fun _ => ROk (7, 11)).
+Definition f_cfg : cfg := mk_cfg true (fun i => ROk i).     (* no_opendir: no cookie cache in the way *)
+Definition f_plan : list mstep := [mk_mstep [] 0 128; mk_mstep [] 0 32; mk_mstep [] 0 32; mk_mstep [] 0 32].
+
+Lemma f_listing_value :
+  listing f_host f_cfg f_dir (init_state []) 0 false f_plan
+  = [ROk [mk_dirent 7 9223372036854775900 8 (repeat 120 100) 0]; RErr EINVAL].
+Proof. vm_compute. reflexivity. Qed.
+
+Lemma C16_full_any_host_refuted : ~ C16_full_any_host_stmt.
+Proof.
+  intros Hfull.
+  destruct (Hfull f_plan f_host f_cfg [] f_dir (init_state []) 0 false) as (replies & Hl & _).
+  - split; [cbn; repeat constructor; cbn; intuition discriminate|repeat constructor; cbn; discriminate].
+  - split; [reflexivity|intros c; cbn; destruct (c =? 0); auto].
+  - intros e _ _. exists (7, 11). reflexivity.
+  - intros i. exists i. reflexivity.
+  - intros h. unfold Inv_h, init_state. cbn [st_h]. destruct (existsb (N.eqb h) []); exact I.
+  - intros Hc. discriminate Hc.
+  - left. auto.
+  - vm_compute. repeat split; try discriminate; try (intros Hx; discriminate Hx).
+  - cbn. lia.
+  - change ([] ++ f_dir) with f_dir in Hl. rewrite f_listing_value in Hl.
+    destruct replies as [|r1 [|r2 rs]]; cbn in Hl; discriminate.
+Qed.
